@@ -55,6 +55,7 @@ func main() {
 		oneShotMs = flag.Int("oneshot-ms", 60000, "timeout of the non-incremental portfolio tried after an incremental unknown (0 = off)")
 		oneShot   = flag.String("oneshot", "z3,z3-new,cvc5", "solvers of the non-incremental portfolio")
 		dumpDir   = flag.String("dump", "", "directory for standalone SMT-LIB dumps of portfolio queries")
+		noWitness = flag.Bool("no-witness", false, "disable model-witness shortcut for branch feasibility")
 		progress  = flag.Int("progress", 30, "seconds between progress lines (0 = none)")
 		tier      = flag.Int("tier", 0, "0 quick, 1 thorough (verifrt.Tier)")
 		mapOrder  = flag.Bool("maporder", false, "explore map iteration orders")
@@ -195,7 +196,7 @@ func main() {
 		c := &interp.Config{
 			Workers: *workers, TimeoutMs: *timeoutMs, MaxSteps: *maxSteps, MaxDepth: *maxDepth, MaxAlloc: *maxAlloc,
 			MaxPaths: *maxPaths, MaxFailures: *maxFail, Solver: *solver, AltSolver: *alt, Verbose: *verbose, SolverLog: *slog,
-			Concrete: conc, MapOrderNondet: *mapOrder, OneShotMs: *oneShotMs, OneShotSolvers: strings.Split(*oneShot, ","), DumpDir: *dumpDir, Tier: *tier, Progress: *progress,
+			Concrete: conc, MapOrderNondet: *mapOrder, OneShotMs: *oneShotMs, OneShotSolvers: strings.Split(*oneShot, ","), DumpDir: *dumpDir, Tier: *tier, Progress: *progress, NoWitness: *noWitness,
 		}
 		if *deadline > 0 {
 			c.Deadline = time.Now().Add(time.Duration(*deadline) * time.Second)
